@@ -159,5 +159,5 @@ def run_shard(shard, tier) -> Stats:
 
 def replay(case):
     out, pop, probes = run_group(case["mode"], [dict(d) for d in case["hosts"]])
-    return {"outcome": str(out[0]), "devices": [ident(d) for d in out[1]] if out[0] == "ok" else str(out[1])[:200],
+    return {"outcome": str(out[0]), "devices": sorted(ident(d) for d in out[1]) if out[0] == "ok" else str(out[1])[:200],
             "bad_probes": pop.bad_probes}
